@@ -7,6 +7,7 @@ TIE:   generated rich models are saved and loaded through every format and varia
 """
 from __future__ import annotations
 
+import copy
 import io
 import json
 import logging
@@ -26,7 +27,7 @@ import cobra  # noqa: E402
 from cobra.io import (from_json, from_yaml, load_json_model, load_yaml_model, model_from_dict, model_to_dict,  # noqa: E402
                       save_json_model, save_yaml_model, to_json, to_yaml)
 
-FORMATS = ["json_str", "json_file", "json_handle", "yaml_str", "yaml_file", "dict", "pickle", "json_sorted", "dict_sorted"]
+FORMATS = ["dict_reuse", "json_str", "json_file", "json_handle", "yaml_str", "yaml_file", "dict", "pickle", "json_sorted", "dict_sorted"]
 
 
 def roundtrip(m, fmt, tmpdir):
@@ -52,6 +53,14 @@ def roundtrip(m, fmt, tmpdir):
         return load_yaml_model(p)
     if fmt == "dict":
         return model_from_dict(model_to_dict(m))
+    if fmt == "dict_reuse":
+        # the same dict is loaded twice and must not be altered by loading; the second load is the one returned
+        d = model_to_dict(m)
+        keep = copy.deepcopy(d)
+        model_from_dict(d)
+        if d != keep:
+            raise AssertionError("model_from_dict changed the dict it was given: " + richgen.diff(json.loads(json.dumps(keep, default=str)), json.loads(json.dumps(d, default=str))))
+        return model_from_dict(d)
     if fmt == "dict_sorted":
         return model_from_dict(model_to_dict(m, sort=True))
     if fmt == "pickle":
